@@ -1,7 +1,7 @@
 /-
 C02, joint model, all node kinds, part 19: the schedules of class T5, the step `release`, schedules, safety.
 -/
-import Uniflow.Proofs.FlowN18
+import Uniflow.Proofs.FlowN18s
 
 namespace Uniflow.FlowN
 open Uniflow.Tracer Uniflow.Node Uniflow.Flow Uniflow.FlowInv Uniflow.FlowG Uniflow.ATracer Uniflow.FlowH Uniflow.FlowM
@@ -40,12 +40,33 @@ theorem extT5_of_extT4 (kinds : List Kind) (e : Ext) (h : ExtT4 kinds e) : ExtT5
     | sames _ => exact h.elim
     | many vs => exact h
 
-theorem prog_out_j (k : Nat) (p : Pkt) (c : Pid) (v : Val) :
+theorem prog_out_j (k : Nat) (p : Pkt) (c : Pid) (v : Val) (hpc : p.id < c) :
     ProgOK (.manyToOne k) p (.outs [some { id := c, pay := v }]) c (c + 1) :=
-  ⟨_, rfl, by simp [linkTargets], by simp [introS, cellsOf], by simp [introS, cellsOf], Nat.le_succ _⟩
+  ⟨_, rfl, by simp [linkTargets, Nat.ne_of_lt hpc], by simp [introS, cellsOf], by simp [introS, cellsOf], Nat.le_succ _⟩
+
+/-- the schedules of class T6 = T5 plus actions that return their INPUT packet ONCE: `same` (any node kind:
+pass-through, `return inPck, nil`) and `sames 1` (`[inPck]`); `sames 0` is `drop` -/
+def ExtT6 (kinds : List Kind) : Ext → Prop
+  | .release _ .same => True
+  | .release n (.sames k) => k = 1 ∨
+      (k = 0 ∧ (kinds[n]? = none ∨ (∃ m, kinds[n]? = some (.oneToMany m)) ∨ ∃ m, kinds[n]? = some (.manyToOne m)))
+  | e => ExtT5 kinds e
+
+theorem extT6_of_extT5 (kinds : List Kind) (e : Ext) (h : ExtT5 kinds e) : ExtT6 kinds e := by
+  cases e with
+  | send _ => exact h
+  | sinkAnswer _ _ => exact h
+  | release n r =>
+    cases r with
+    | same => exact h.elim
+    | sames _ => exact h.elim
+    | out v => exact h
+    | err v => exact h
+    | many vs => exact h
+    | drop => exact h
 
 theorem HIe_release (kinds : List Kind) (links : List (Nat × List Tgt)) (hwf : GraphWF5 kinds links) (g g' : G) (n : Nat)
-    (r : Flow.Rel) (hr : ExtT5 kinds (.release n r)) (h : HIe kinds links g) (hs : release g n r = some g') :
+    (r : Flow.Rel) (hr : ExtT6 kinds (.release n r)) (h : HIe kinds links g) (hs : release g n r = some g') :
     HIe kinds links g' := by
   obtain ⟨aa, h⟩ := h
   have h0 : HI kinds links aa D0 (clearObs g) := HI_congr kinds links aa D0 g _ h rfl rfl rfl rfl rfl rfl rfl rfl rfl
@@ -63,6 +84,13 @@ theorem HIe_release (kinds : List Kind) (links : List (Nat × List Tgt)) (hwf : 
       subst ei
       simp only [hat] at hs
       have hk := h0.kindEq n nd hn
+      have hX : (⟨p.id, i, .cells []⟩ : Req) ∈ (aa n).reqs := by
+        have := (h0.jb n nd hn).j.th i _ hg; simpa [ThOK] using this
+      have hplt : p.id < (clearObs g).next :=
+        (h0.jb n nd hn).bnd p.id (List.mem_append_left _ (mem_ids_of_mem hX (by simp [idsR])))
+      have tailS : ∀ (o : Outcome), relTail (clearObs g) n nd i p o (clearObs g).next = some g' →
+          ProgS nd.kind p o → HIe kinds links g' := fun o hs' hpo =>
+        HIe_relTail_same kinds links hwf (clearObs g) g' ⟨aa, h0⟩ n nd i p grp inbox hn hg o hpo hs'
       have tail : ∀ (o : Outcome) (nx : Pid), relTail (clearObs g) n nd i p o nx = some g' →
           (ProgOK nd.kind p o (clearObs g).next nx ∨ ProgE nd.kind p o (clearObs g).next nx) → HIe kinds links g' := by
         intro o nx hs' hpo
@@ -70,30 +98,57 @@ theorem HIe_release (kinds : List Kind) (links : List (Nat × List Tgt)) (hwf : 
         · exact HIe_relTail kinds links hwf (clearObs g) g' ⟨aa, h0⟩ n nd i p grp inbox hn hg o nx hpo hs'
         · exact HIe_relTail_echo kinds links hwf (clearObs g) g' ⟨aa, h0⟩ n nd i p grp inbox hn hg o nx hpo hs'
       cases r with
-      | same => exact hr.elim
-      | sames _ => exact hr.elim
-      | err v => exact tail _ _ hs (Or.inl (prog_err nd.kind p _ v))
+      | same =>
+        apply tailS _ hs
+        refine ⟨by simp [introS, cellsOf], ?_⟩
+        cases hkd : nd.kind with
+        | oneToOne => exact ⟨_, rfl⟩
+        | manyToOne _ => exact ⟨_, rfl⟩
+        | oneToMany m => simp only [program]; split <;> exact ⟨_, rfl⟩
+      | sames k =>
+        simp only [ExtT6] at hr
+        rcases hr with e | ⟨e, hr⟩
+        · -- `[inPck]`
+          subst e
+          apply tailS _ hs
+          refine ⟨by simp [introS, cellsOf], ?_⟩
+          cases hkd : nd.kind with
+          | oneToOne => exact ⟨_, rfl⟩
+          | manyToOne _ => exact ⟨_, rfl⟩
+          | oneToMany m => simp only [program]; split <;> exact ⟨_, rfl⟩
+        · -- `[]`: nothing returned (as `drop`)
+          subst e
+          rw [hk] at hr
+          apply tail _ _ hs
+          right
+          rcases hr with e | ⟨m, e⟩ | ⟨m, e⟩
+          · cases e
+          · simp only [Option.some.injEq] at e; rw [e]
+            exact ⟨by simp [program, validOuts], by simp [introS, cellsOf], by simp [introS, cellsOf], Nat.le_refl _⟩
+          · simp only [Option.some.injEq] at e; rw [e]
+            exact ⟨by simp [program], by simp [introS, cellsOf], by simp [introS, cellsOf], Nat.le_refl _⟩
+      | err v => exact tail _ _ hs (Or.inl (prog_err nd.kind p _ v hplt))
       | out v =>
-        simp only [ExtT5] at hr
+        simp only [ExtT6, ExtT5] at hr
         rw [hk] at hr
         simp only [Option.some.injEq] at hr
         apply tail _ _ hs
         left
         rcases hr with e | e | ⟨k, e⟩ | ⟨k, e⟩
         · cases e
-        · exact prog_out nd.kind p _ v (Or.inl e)
-        · exact prog_out nd.kind p _ v (Or.inr ⟨k, e⟩)
-        · rw [e]; exact prog_out_j k p _ v
+        · exact prog_out nd.kind p _ v hplt (Or.inl e)
+        · exact prog_out nd.kind p _ v hplt (Or.inr ⟨k, e⟩)
+        · rw [e]; exact prog_out_j k p _ v hplt
       | many vs =>
-        simp only [ExtT5] at hr
+        simp only [ExtT6, ExtT5] at hr
         rw [hk] at hr
         rcases hr with e | ⟨k, e⟩
         · cases e
         · simp only [Option.some.injEq] at e
           apply tail _ _ hs
-          rw [e]; exact prog_many4 k p (clearObs g).next vs
+          rw [e]; exact prog_many4 k p (clearObs g).next vs hplt
       | drop =>
-        simp only [ExtT5] at hr
+        simp only [ExtT6, ExtT5] at hr
         rw [hk] at hr
         apply tail _ _ hs
         right
@@ -107,7 +162,7 @@ theorem HIe_release (kinds : List Kind) (links : List (Nat × List Tgt)) (hwf : 
           exact ⟨by simp [program], by simp [introS, cellsOf], by simp [introS, cellsOf], Nat.le_refl _⟩
 
 theorem HIe_ext (kinds : List Kind) (links : List (Nat × List Tgt)) (hwf : GraphWF5 kinds links) (g : G) (e : Ext)
-    (he : ExtT5 kinds e) (h : HIe kinds links g) : HIe kinds links (ext g e) := by
+    (he : ExtT6 kinds e) (h : HIe kinds links g) : HIe kinds links (ext g e) := by
   cases e with
   | send v => exact HIe_send kinds links hwf g v h
   | sinkAnswer k a =>
@@ -122,7 +177,7 @@ theorem HIe_ext (kinds : List Kind) (links : List (Nat × List Tgt)) (hwf : Grap
     | some g' => exact HIe_release kinds links hwf g g' n r he h hs
 
 theorem HIe_runExt (kinds : List Kind) (links : List (Nat × List Tgt)) (hwf : GraphWF5 kinds links) (es : List Ext) :
-    ∀ (g : G), (∀ e ∈ es, ExtT5 kinds e) → HIe kinds links g → HIe kinds links (runExt g es) := by
+    ∀ (g : G), (∀ e ∈ es, ExtT6 kinds e) → HIe kinds links g → HIe kinds links (runExt g es) := by
   induction es with
   | nil => intro g _ h; exact h
   | cons e es ih =>
